@@ -197,10 +197,14 @@ class State:
                 raise V.UnsupportedError(f"undeclared ghost variable {name}")
             ty = S.GHOST[name]
             self.ghost[name] = V.Val(ty, [z3.Const(f"G_{name}_{i}", s) for i, s in enumerate(ty.sorts())])
+            if ty.kind == "list":
+                self.assume(V.list_len(self.ghost[name]) >= 0)
         return self.ghost[name]
 
     def ghost_set(self, name, val):
         self.ghost_get(name)
         self.ghost[name] = V.coerce(val, S.GHOST[name])
+        if S.GHOST[name].kind == "list":
+            self.assume(V.list_len(self.ghost[name]) >= 0)
         if self.written_ghost is not None:
             self.written_ghost.add(name)
